@@ -150,6 +150,7 @@ def explore(S, want=('C06',), per_kind=10, max_nodes=14, deep=False):
     f_attr = S.find_fn(core, 'AttrStore::new')
     shapes, nfiles = collect_shapes(S, max_nodes, per_kind)
     expr_kinds = {kt.names[k] for k in kt.cast_variant['Expr']}
+    expr_kind_ids = set(kt.cast_variant['Expr']) - {kt.k('Space'), kt.k('Parbreak')}
     found = []
     coverage = {}
     tasks = []
@@ -164,13 +165,14 @@ def explore(S, want=('C06',), per_kind=10, max_nodes=14, deep=False):
 
             def body(ctx, tree=tree, src_text=src_text):
                 state = {'depth': 0}
+                root_holder = [None]
 
                 def nested(tag):
                     def f(m, a, ci):
                         state['depth'] += 1
-                        if state['depth'] == 1 and tag == 'convert_expr':
-                            return NotImplemented          # the construct under test
                         nd = T._node(m, a[2])
+                        if nd is root_holder[0] and tag == 'convert_expr':
+                            return NotImplemented          # the construct under test itself (reached again through a wrapper)
                         return D.opaque_doc('sub', (nd.nid,))
                     return f
                 cw = z3.BitVec('chain_width', 64)
@@ -182,6 +184,7 @@ def explore(S, want=('C06',), per_kind=10, max_nodes=14, deep=False):
                 if deep:
                     m.max_depth = 200
                 root = build(tree, kt)
+                root_holder[0] = root
                 attrs = m.call_fn(f_attr, [root])
                 cfg = Agg('Config', None, (z3.BitVec('cfg_tab', 64), z3.BitVec('cfg_width', 64), 2, False), pp.CFG_NAMES)   # import reordering is C19's subject
                 ctx.assume(z3.ULT(cfg.fields[0], 1 << 31))
@@ -203,6 +206,38 @@ def explore(S, want=('C06',), per_kind=10, max_nodes=14, deep=False):
                     for c in n.children:
                         reg_nodes(c)
                 reg_nodes(root)
+                if 'C04' in want and not deep:
+                    # statements of a code body stay separated: between the (opaque) documents of two consecutive statements there is a
+                    # hard line break or a semicolon in every layout
+                    def code_children(n):
+                        if n.kind == kt.k('Code'):
+                            return [c for c in n.children if T.kind_in(c.kind, expr_kind_ids) is True]
+                        for c in n.children:
+                            r = code_children(c)
+                            if r:
+                                return r
+                        return []
+                    stmts = [c.nid for c in code_children(root)] if tree[0] in ('CodeBlock', 'Contextual', 'Closure', 'LetBinding', 'Conditional', 'WhileLoop', 'ForLoop', 'ShowRule') else []
+                    if len(stmts) >= 2:
+                        for mode, at in atoms_modes(d).items():
+                            pos = {}
+                            for j, a in enumerate(at):
+                                if a[0] == 'o' and a[2] and a[2][0] in stmts:
+                                    pos.setdefault(a[2][0], j)
+                            seq = [pos[n] for n in stmts if n in pos]
+                            if len(seq) < 2:
+                                continue
+                            ok = True
+                            for j1, j2 in zip(seq, seq[1:]):
+                                between = at[j1 + 1:j2]
+                                if not any(b == ('nl',) or (b[0] == 't' and b[1].is_concrete() and ';' in b[1].concrete()) for b in between):
+                                    ok = False
+                            ctx.must_hold(ok, 'C04:statements-not-separated',
+                                          lambda mdl, mode=mode, at=at: dict(kind=tree[0], source=src_text, layout=mode, atoms=show_atoms(at)[:300],
+                                                                              mode=model_int(mdl, c0.get('mode').disc), suppressed=model_bool(mdl, c0.get('break_suppressed'))))
+                            ctx.witness('code body with several statements')
+                    if want[0] == 'C04':
+                        return
                 if 'C12' in want:
                     # every nest() in the document is one indent unit (align / hang only come from comment.rs and carry no offset here)
                     offs = D.indent_nest_offsets(d)
